@@ -77,7 +77,7 @@ LEAF_NAMES = [l for l, _ in LEAVES]
 MAY_REFUSE = dict(LEAVES)
 CORE_LEAVES = ['float', 'int', 'true', 'str', 'str65', 'strU', 'a1', 'a2', 'ai1', 'lnum', 'larr',
                'ls', 'ls65', 'lsU', 'dict2', 'tnum']
-KEYS = ['k', 'k0', 'a b', u'kµ', 'K.1']
+KEYS = ['k', 'k0', 'a b', u'kµ', 'K.1', ' k ']
 
 
 def make_leaf(letter, salt):
@@ -219,7 +219,7 @@ def letter_of(path, letters):
         if path == p or path.startswith(p + '/') or path.startswith(p):
             if best is None or len(p) > len(best[0]):
                 best = (p, l)
-    return best[1] if best else 'none'
+    return best[1] if best else 'unregistered-name'
 
 
 def dict_case(case):
@@ -232,11 +232,15 @@ def dict_case(case):
     used = sorted(set(letters.values()))
     fn = os.path.join(fx.fresh_dir('c16a'), 'd.h5')
     group = case.get('group')
+    via = case.get('via')
     try:
-        with HDF5Output(fn) as o:
+        if via == 'append':          # taurex.taurex.main: model first, results appended later
+            with HDF5Output(fn) as o:
+                o.store_dictionary({'ModelParameters': {'before': 1.0}})
+        with HDF5Output(fn, append=(via == 'append')) as o:
             if case.get('pre'):
                 o.store_dictionary({'before': 1.0}, group_name='Pre')
-            if case.get('via') == 'subgroup':      # as taurex.taurex.main does: group.store_dictionary
+            if via in ('subgroup', 'append'):     # group.store_dictionary, as main() does
                 o.create_group('Output').store_dictionary(d, group_name=group)
             else:
                 o.store_dictionary(d, group_name=group)
@@ -249,7 +253,11 @@ def dict_case(case):
         r.observe('refused', type(e).__name__)
         return r
     with h5py.File(fn, 'r') as f:
-        g = f['Output'] if case.get('via') == 'subgroup' else f
+        g = f['Output'] if case.get('via') in ('subgroup', 'append') else f
+        if case.get('via') == 'append':
+            mp = ref.h5_tree(f['ModelParameters'])
+            r.check(list(mp) == ['before'] and float(mp['before']) == 1.0, 'a:other-group-untouched',
+                    'a/append-clobbered')
         g = g[group] if group else g
         read = ref.h5_tree(g)
         if case.get('pre'):
@@ -277,8 +285,8 @@ def dict_cases(tier):
     # 1. every leaf x key letter x depth 1..3 (the leaf sits at that depth, beside a float)
     for letter, key, depth in itertools.product(leaf_set, KEYS, (1, 2, 3)):
         spec = [[key, ['leaf', letter]], ['zz', ['leaf', 'float']]]
-        for lvl in range(depth - 1):
-            spec = [['g%d' % lvl, ['dict', spec]], ['s%d' % lvl, ['leaf', 'int']]]
+        for lvl in range(depth - 1):       # the enclosing groups carry the key letter as well
+            spec = [[key + 'g%d' % lvl, ['dict', spec]], [key, ['leaf', 'int']]]
         cases.append({'tree': spec, 'group': 'G'})
     # 2. ordered sibling pairs (name expansion of one leaf must not disturb another)
     pair_set = leaf_set if tier == 'thorough' else CORE_LEAVES
@@ -290,6 +298,7 @@ def dict_cases(tier):
         cases.append({'tree': [['top', ['dict', [['k', ['leaf', letter]]]]]], 'group': None})
         cases.append({'tree': [['k', ['leaf', letter]]], 'group': 'Solutions', 'via': 'subgroup'})
         cases.append({'tree': [['k', ['leaf', letter]]], 'group': None, 'via': 'subgroup'})
+        cases.append({'tree': [['k', ['leaf', letter]]], 'group': 'Spectra', 'via': 'append'})
         cases.append({'tree': [['k', ['leaf', letter]]], 'group': 'G', 'pre': True})
     if tier == 'thorough':
         # all triples of core leaves in a nested layout
@@ -603,7 +612,7 @@ def sig_key(k):
     that T_point1/T_point2 or T_3/T_4 share a signature."""
     import re
     if k.startswith('fit:'):
-        return 'fit:' + re.sub(r'\d+$', '#', k[4:])
+        return 'fit:' + re.sub(r'^(T_point|P_point|T_)\d+$', r'\1#', k[4:])
     return k
 
 
@@ -718,8 +727,7 @@ def roundtrip(r, m1, tag, d, deep=True):
                                   rtol=1e-12))
         r.check(True, 'c:fixed-point')
         for path, why in fd:
-            import re
-            r.check(False, 'c:fixed-point', 'c/fixed-point%s' % re.sub(r'\d+$', '#', path), path=path, why=why)
+            r.check(False, 'c:fixed-point', 'c/fixed-point%s' % path, path=path, why=why)
         m3 = load_model(f2)
         s3 = np.array(m3.model()[1], dtype=float)
         dd3 = desc_diff(d2, describe(m3))
@@ -909,7 +917,7 @@ def spectrum_case(case):
     r = core.R(case)
     fx.reset_caches()
     register_opacities()
-    m = build_model({'kind': case['kind'], 'N': case['N'], 'temp': 'npoint0', 'gases': 'three',
+    m = build_model({'kind': case['kind'], 'N': case['N'], 'temp': 'npoint0' if case['N'] > 1 else 'iso', 'gases': 'three',
                      'contribs': 'abs+ray'})
     res = m.model()
     wn, flux, tau = [np.array(x, dtype=float) for x in res[:3]]
@@ -1008,8 +1016,9 @@ def explore(ctx):
         'hist': ['fresh', 'setall', 'eval-setall'] if thorough else ['fresh', 'setall'],
     }
     if thorough:
-        cc = core.product_cases(dims, full=True)
-        ctx.bounds['c.deviations'] = 'full product'
+        cc = core.product_cases(dims, core=['kind', 'temp', 'press', 'gases', 'contribs'], d=3)
+        ctx.bounds['c.deviations'] = 3
+        ctx.bounds['c.full_product_over'] = 'kind x temp x press x gases x contribs'
     else:
         cc = core.product_cases(dims, core=['kind', 'temp'], d=2)
         ctx.bounds['c.deviations'] = 2
@@ -1019,3 +1028,5 @@ def explore(ctx):
     roots = [[['cfg', c]] for c in (HIST_CFGS if thorough else HIST_CFGS[1:3])]
     ctx.bounds['h.configurations'] = len(roots)
     ctx.bfs('hist_case', roots, hist_ops, depth=2, phase='h')
+    if thorough:
+        ctx.bfs('hist_case', [[['cfg', HIST_CFGS[2]]]], hist_ops, depth=3, phase='h3')
